@@ -261,11 +261,13 @@ SAFE_SINKS = {'ensure_text_inputs', 'create_debuglog'}
 
 
 def d2_taint(ctx, idx):
-    r = ctx.rule('D2.TAINT', 'student_input is used outside the guard only by reviewed total functions', floor=8)
+    r = ctx.rule('D2.TAINT', 'student_input is used outside the guard only by reviewed total functions', floor=6)
     with r:
         impls = lib.class_family_methods(idx, AG, '__call__')
-        if len(impls) < 3:
-            raise AnalysisError('expected >= 3 __call__ implementations in the grader family, found %d' % len(impls))
+        # (overrides may legitimately turn into hooks called by the base implementation; the base one must exist, and what the
+        # floor of this rule counts are the uses of the submission, wherever they are)
+        if not any(fi.qualname == AG + '.__call__' for fi in impls):
+            raise AnalysisError('AbstractGrader.__call__ not found among the %d __call__ implementations of the grader family' % len(impls))
         for fi in impls:
             if 'student_input' not in fi.params:
                 r.undecided(fi.qualname, 'no student_input parameter')
